@@ -47,6 +47,52 @@ def nontrivial(sc, obs):
     return deliveries >= 3 and any(l.startswith("observe") and "*" in l.split()[1:3] for l in sc.lines)
 
 
+def _hashseed_main():
+    """child process (own PYTHONHASHSEED): natural-set-order scenarios, implementation vs model vs oracle"""
+    import json, random, sys
+    seed, count = int(sys.argv[1]), int(sys.argv[2])
+    core.import_mesa()
+    rng = random.Random(f"C16/hash/{seed}")
+    scs = []
+    for _ in range(count):
+        sc = S.gen_sig_scenario(rng)
+        if "natural" not in sc.lines[0].split():
+            sc.lines[0] = " ".join(
+                [":".join(t.split(":")[:2] + [",".join(S.KIND_TYPES[t.split(":")[1]])]) if ":" in t else t
+                 for t in sc.lines[0].split()] + ["natural"])
+        scs.append(sc)
+    obs = [run_impl(sc) for sc in scs]
+    mobs = core.model_obs(DRIVER, scs)
+    bad = []
+    for sc, o, m in zip(scs, obs, mobs):
+        cl = oracle(sc, o)
+        if o != m or cl:
+            bad.append({"ops": sc.lines, "impl": o, "model": m, "oracle": cl})
+    print(json.dumps({"n": len(scs), "bad": bad[:3], "nbad": len(bad)}))
+
+
+def extra(ctx):
+    """thorough: the same check under three other hash seeds (other iteration orders of the real signal-type sets)"""
+    if ctx.tier != "thorough":
+        return
+    import json, os, subprocess, sys
+    total = 0
+    for hs in ("1", "2", "3"):
+        env = dict(os.environ, PYTHONHASHSEED=hs)
+        p = subprocess.run([sys.executable, "-c", "from harness import c16; c16._hashseed_main()", str(ctx.seed), "400"],
+                           cwd=core.VERIF, env=env, capture_output=True, text=True, timeout=600)
+        if p.returncode != 0:
+            raise core.Infra("hash-seed child failed: " + p.stderr[-800:])
+        res = json.loads(p.stdout.strip().splitlines()[-1])
+        total += res["n"]
+        if res["nbad"]:
+            b = res["bad"][0]
+            ctx.violation(f"hashseed{hs}", {"kind": "impl-counterexample" if b["oracle"] else "no-failing-input",
+                                            "ops": b["ops"], "impl_observations": b["impl"], "model_observations": b["model"],
+                                            "oracle_clause": b["oracle"], "pythonhashseed": hs}, no_input=not b["oracle"])
+    ctx.cov["hashseed_scenarios"] = total
+
+
 if __name__ == "__main__":
     import sys
     core.main(sys.modules[__name__])
